@@ -145,6 +145,7 @@ func (aer *AppExecResult) DecodeBinary(r *io.BinReader) {
 	aer.Stack = arr
 	r.ReadArray(&aer.Events)
 	aer.FaultException = r.ReadString()
+	aer.Invocations = nil // The receiver can hold invocations of another execution.
 	if aer.VMState&saveInvocationsBit != 0 {
 		r.ReadArray(&aer.Invocations)
 		aer.VMState &= cleanSaveInvocationsBitMask
@@ -288,6 +289,9 @@ func (e *Execution) UnmarshalJSON(data []byte) error {
 	if err := json.Unmarshal(data, aux); err != nil {
 		return err
 	}
+	// The receiver can hold results of another execution.
+	e.Stack = nil
+	e.FaultException = ""
 	var arr []json.RawMessage
 	if err := json.Unmarshal(aux.Stack, &arr); err == nil {
 		st := make([]stackitem.Item, len(arr))
